@@ -33,8 +33,8 @@ TIMEOUT = {"quick": 900, "thorough": 3400}
 
 def gen_cases(tier: str, seed: int) -> list[dict[str, Any]]:
     q = tier == "quick"
-    cases = [dict(kind="direct", seed=seed, idx=i) for i in range(100 if q else 5000)]
-    cases += [dict(kind="e2e", seed=seed, idx=i) for i in range(16 if q else 200)]
+    cases = [dict(kind="direct", seed=seed, idx=i) for i in range(100 if q else 50000)]
+    cases += [dict(kind="e2e", seed=seed, idx=i) for i in range(16 if q else 2000)]
     return cases
 
 
